@@ -215,13 +215,15 @@ def generate(rng, index, cfg):
         big = nbgen.notebook(rng, max_cells=3, minor=4)
         big["cells"].append({"cell_type": "markdown", "metadata": {}, "source": "".join(rng.choice(nbgen.VOCAB) for _ in range(rng.choice([500, 3000])))})
         upload_pool.append(big)
-    if mode in OUTPUT_NAME and rng.random() < 0.08:
+    huge_at = None
+    if mode in OUTPUT_NAME and rng.random() < 0.15:
         # a notebook with an embedded image: a store body of more than a megabyte (tornado's own limit is 100 MB)
         huge = nbgen.notebook(rng, max_cells=1, minor=4)
         huge["cells"].append({"cell_type": "code", "execution_count": 1, "metadata": {}, "source": "plot()",
                               "outputs": [{"output_type": "display_data", "metadata": {},
                                            "data": {"image/png": ("iVBORw0KGgo" + "%08x" % rng.getrandbits(32)) * rng.choice([70000, 160000]) + "\n"}}]})
         upload_pool.append(huge)
+        huge_at = len(upload_pool) - 1
     world["alternates"] = [nbgen.edit(rng, files[rng.choice(GOOD[:3])]) for _ in range(3)]
     world["alternates"].append(nbgen.edit(rng, files["a.ipynb"], n_edits=1, kinds=["samelen"]))     # same size as a.ipynb
     # all notebooks carry one and the same modification time (unpacked from an archive, cp -p, rsync -t, a checkout on a
@@ -310,7 +312,7 @@ def generate(rng, index, cfg):
                 ex["headers"]["X-Output-Filename"] = "evil.ipynb"
             if not malformed:
                 ex["kind"] = "store_valid"
-                ex["nb"] = rng.randrange(len(upload_pool))
+                ex["nb"] = huge_at if (huge_at is not None and rng.random() < 0.4) else rng.randrange(len(upload_pool))
                 ex["body"] = jbody(dict(extra, merged=upload_pool[ex["nb"]]))
             else:
                 ex["kind"] = "store_malformed"
